@@ -1271,9 +1271,8 @@ def randmio_dir(R, itr, seed=None):
                 R[c, b] = R[c, d]
                 R[c, d] = 0
 
-                i.setflags(write=True)
                 j.setflags(write=True)
-                i[e1] = d
+                j[e1] = d
                 j[e2] = b  # reassign edge indices
                 eff += 1
                 break
